@@ -29,6 +29,25 @@ def hook_beam(s, rec):
         r_all = env.get_reward(td.clone(), actions.clone())
         out = orig_best(logprobs, actions, td, env)
         rec.best_beam = dict(all_actions=actions.clone(), all_logprobs=logprobs.detach().clone(), all_reward=r_all.detach().clone(), out_actions=out[1].clone(), out_logprobs=out[0].detach().clone())
+        # the state handed back with the best beam must be THAT beam's final state (the policy recomputes the reward from
+        # it; environments whose reward reads the final state - mTSP, MDCPDP, scheduling, selection - depend on it)
+        W_, B_ = s.beam_width, actions.shape[0] // s.beam_width
+        bad_rows = []
+        try:
+            td_out = out[2]
+            for b in range(B_):
+                js = [j for j in range(W_) if torch.equal(actions[j * B_ + b], out[1][b])]
+                ok = False
+                for j in js:
+                    if all(torch.equal(td_out[k][b], td[k][j * B_ + b]) for k in td.keys() if isinstance(td[k], torch.Tensor) and k in td_out.keys()):
+                        ok = True
+                        break
+                if js and not ok:
+                    bad_rows.append((b, js))
+            rec.best_beam["state_checked"] = B_
+        except Exception as e:  # the tap must never break the call it observes
+            rec.best_beam["state_error"] = repr(e)
+        rec.best_beam["state_mismatch"] = bad_rows
         return out
 
     s._select_best_beam = select_best_beam
@@ -85,6 +104,12 @@ def case(ctx, case):
             ctx.count("c13_best_tap_missed")
             return
         ctx.count("c13_best_taps")
+        ctx.count("c13_best_state_rows", bb.get("state_checked", 0))
+        if bb.get("state_mismatch"):
+            b_, js_ = bb["state_mismatch"][0]
+            ctx.evaluation()
+            ctx.violation(dict(sig, q="best_state"), f"instance {b_}: the state returned with the best beam is not the final state of that beam (beam index {js_})", dict(n=n, B=B, W=W))
+            return
         all_a, all_r = bb["all_actions"].reshape(W, B, -1), bb["all_reward"].reshape(W, B)
         for b in range(B):
             ctx.evaluation()
